@@ -827,7 +827,7 @@ func (g *sgen) term(d int) string {
 	case 18:
 		return "error(" + g.strLit(0) + ")"
 	case 19:
-		return g.pick("empty", "error", "error(null)", "error({a: 1})")
+		return g.pick("empty", "error", "error(null)", "error({a: 1})", "error([1])", "error({})", "error(.)")
 	case 20:
 		return "limit(" + g.pick("0", "1", "2", "3") + "; " + g.q(d-1) + ")"
 	case 21:
@@ -1025,8 +1025,21 @@ func (rn *runner) semEvAll(r *hlib.Rand, nEv int) {
 	chunk(evs, 200, rn.semEv)
 }
 
+// error values of every JSON type, in every mode (an error must be reported once per evaluation and the
+// remaining inputs must still be processed: known finding cli-object-error-fatal, fixed)
+var semFixedErr = []string{
+	`1, error({"k": 1})`, `error({"k": 1})`, `1, error([1, {"a": 2}]), 2`, `error([])`, `1, error(null), 2`, `error(null)`, `error(1)`, `error(true)`,
+	`error("x")`, `error({})`, `error({"error": "x"})`, `error({"error": {"what": "w", "error": "e"}})`, `., error({"in": .})`, `error`,
+	`try error({"k": 1}) catch .k`, `(1, 2) | error({"v": .})`,
+}
+
 func (rn *runner) semCliAll(r *hlib.Rand, nCli int) {
 	modes := []string{"n", "f", "s"}
+	for _, p := range semFixedErr {
+		for _, m := range modes {
+			rn.semCli(m, p)
+		}
+	}
 	for _, p := range append(append([]string{}, semFixedCli...), semFixed...) {
 		for _, m := range modes {
 			if m != "n" && r.Intn(100) < 60 {
